@@ -16,7 +16,7 @@ Singular(g5) == OffSingular(g5) < BAND_AU
 ZeroKind(g5) == CircDist(g5, 0, N_AU) < BAND_AU
 
 \* ---- continuity at the singularity (contract of inverse_continuing) ---------------------
-\* c: [prev, first, sens_nrad, other_singular, s46_equal, w16, answers(AU), arm(AU prefix of truth),
+\* c: [prev, truth (the singular posture itself: its J1..J3 and J5 are those of the recovered answer), first, sens_nrad, other_singular, s46_equal, w16, answers(AU), arm(AU prefix of truth),
 \*     realised, kind]
 SENS_BOUND == 250      \* nrad: arm sensitivity to the solver's 0.125 um probing shift
 EQ == 3
@@ -30,7 +30,7 @@ Continuity(c) ==
   \* some answer on the previous arm branch moves J4 and J6 by the same amount
   (IF c.kind = "zero" /\ c.sens_nrad < SENS_BOUND /\ ~c.other_singular /\ c.s46_equal /\
       ~\E i \in 1..Len(c.answers) :
-          /\ \A j \in {1, 2, 3, 5} : Abs(c.answers[i][j] - c.prev[j]) <= 30
+          /\ \A j \in {1, 2, 3, 5} : Abs(c.answers[i][j] - c.truth[j]) <= 30
           /\ Abs((c.answers[i][4] - c.prev[4]) - (c.answers[i][6] - c.prev[6])) <= 2 * EQ
    THEN {"C05:j4-j6-not-moved-together"} ELSE {})
 =============================================================================
